@@ -129,11 +129,12 @@ impl Storage {
                 .read_value((self.io_interface.get_block_dir() + file_name.as_str()).as_str())
                 .await;
             if result.is_err() {
+                // one unreadable file must not cost the blocks in the files after it
                 error!(
                     "failed loading block from disk : {:?}",
                     result.err().unwrap()
                 );
-                return;
+                continue;
             }
             debug!("file : {:?} loaded", file_name);
             let buffer: Vec<u8> = result.unwrap();
@@ -145,7 +146,7 @@ impl Storage {
                     "failed deserializing block with buffer length : {:?}",
                     buffer_len
                 );
-                return;
+                continue;
             }
             let mut block: Block = result.unwrap();
             block.force_loaded = true;
